@@ -273,6 +273,48 @@ func runC10(c *an.Ctx) {
 
 	// ---- R3 limit sanity.
 	c10LimitSanity(c)
+	// ... and every limit directive configures its own side: a handler named for the request side stores only
+	// request-side settings of the WAF and the other way round (the two families are copies of each other, a
+	// copy/paste slip makes `SecResponseBodyLimitAction ProcessPartial` switch the *request* side to partial)
+	nDir := 0
+	for _, fn := range c.P.ModFuncs {
+		if relPkg(fn) != "internal/seclang" || !strings.HasPrefix(fn.Name(), "directiveSec") || fn.Parent() != nil {
+			continue
+		}
+		side, other := "", ""
+		switch {
+		case strings.Contains(fn.Name(), "Request") && !strings.Contains(fn.Name(), "Response"):
+			side, other = "Request", "Response"
+		case strings.Contains(fn.Name(), "Response") && !strings.Contains(fn.Name(), "Request"):
+			side, other = "Response", "Request"
+		default:
+			continue
+		}
+		var wrong []string
+		nSt := 0
+		an.Instrs(fn, func(in ssa.Instruction) {
+			st, ok := in.(*ssa.Store)
+			if !ok {
+				return
+			}
+			fv := an.FieldVar(st.Addr)
+			if fv == nil {
+				return
+			}
+			nSt++
+			if strings.Contains(fv.Name(), other) && !strings.Contains(fv.Name(), side) {
+				wrong = append(wrong, fv.Name())
+			}
+		})
+		if nSt == 0 {
+			continue
+		}
+		nDir++
+		c.FuncsAnalysed[fn] = true
+		c.Check(len(wrong) == 0, "R3", fn.Name()+" configures the "+strings.ToLower(side)+" side only", fn.Pos(), fmt.Sprintf("%d stores, none to a %s-side setting", nSt, strings.ToLower(other)),
+			fn.Name()+" stores into "+strings.Join(wrong, ", ")+": a "+strings.ToLower(side)+"-side directive changes the "+strings.ToLower(other)+"-side setting (and leaves its own unchanged)")
+	}
+	c.MinCount("R3", "request/response side directives", nDir, 6)
 
 	// ---- R4 readers advance by what they return.
 	if rd := c.Fn("R4", "internal/corazawaf.(*bodyBufferReader).Read"); rd != nil {
